@@ -26,12 +26,6 @@ Definition hos2_sym_stmt : Prop :=
 Definition hos2_hom_stmt : Prop :=
   forall s0 s1 s2 e t : R, 0 < t -> e < mises_1 s0 s1 s2 -> e < mises_1 (t * s0) (t * s1) (t * s2) -> 0 < misesQ s0 s1 s2 ->
     nthR (out (hos2_val_1 (t * s0) (t * s1) (t * s2) e)) 0 = t * nthR (out (hos2_val_1 s0 s1 s2 e)) 0.
-(* Barlat with the deviatoric projector as both transformations: same value, normal (entries 0..3), second derivative (0..12) *)
-Definition bar2_hosford_stmt : Prop :=
-  forall s0 s1 s2 e : R, e < mises_1 s0 s1 s2 -> 0 < misesQ s0 s1 s2 ->
-    all_upto 1 (fun k => nthR (out (bar2_val_1 s0 s1 s2 e)) k = nthR (out (hos2_val_1 s0 s1 s2 e)) k) /\
-    all_upto 4 (fun k => nthR (out (bar2_nrm_1 s0 s1 s2 e)) k = nthR (out (hos2_nrm_1 s0 s1 s2 e)) k) /\
-    all_upto 13 (fun k => nthR (out (bar2_snd_1 s0 s1 s2 e)) k = nthR (out (hos2_snd_1 s0 s1 s2 e)) k).
 Definition hos2_mises_stmt : Prop :=
   forall s0 s1 s2 e : R, e < mises_1 s0 s1 s2 -> 0 < misesQ s0 s1 s2 ->
     nthR (out (hos2_val_1 s0 s1 s2 e)) 0 = mises_1 s0 s1 s2.
@@ -56,12 +50,6 @@ Definition hos6_sym_stmt : Prop :=
 Definition hos6_hom_stmt : Prop :=
   forall s0 s1 s2 e t : R, 0 < t -> e < mises_1 s0 s1 s2 -> e < mises_1 (t * s0) (t * s1) (t * s2) -> 0 < misesQ s0 s1 s2 ->
     nthR (out (hos6_val_1 (t * s0) (t * s1) (t * s2) e)) 0 = t * nthR (out (hos6_val_1 s0 s1 s2 e)) 0.
-(* Barlat with the deviatoric projector as both transformations: same value, normal (entries 0..3), second derivative (0..12) *)
-Definition bar6_hosford_stmt : Prop :=
-  forall s0 s1 s2 e : R, e < mises_1 s0 s1 s2 -> 0 < misesQ s0 s1 s2 ->
-    all_upto 1 (fun k => nthR (out (bar6_val_1 s0 s1 s2 e)) k = nthR (out (hos6_val_1 s0 s1 s2 e)) k) /\
-    all_upto 4 (fun k => nthR (out (bar6_nrm_1 s0 s1 s2 e)) k = nthR (out (hos6_nrm_1 s0 s1 s2 e)) k) /\
-    all_upto 13 (fun k => nthR (out (bar6_snd_1 s0 s1 s2 e)) k = nthR (out (hos6_snd_1 s0 s1 s2 e)) k).
 
 (* ---- Hosford, a = 8; hypotheses: above the threshold (e < von Mises stress), not hydrostatic *)
 Definition hos8_same_stmt : Prop :=
@@ -83,10 +71,23 @@ Definition hos8_sym_stmt : Prop :=
 Definition hos8_hom_stmt : Prop :=
   forall s0 s1 s2 e t : R, 0 < t -> e < mises_1 s0 s1 s2 -> e < mises_1 (t * s0) (t * s1) (t * s2) -> 0 < misesQ s0 s1 s2 ->
     nthR (out (hos8_val_1 (t * s0) (t * s1) (t * s2) e)) 0 = t * nthR (out (hos8_val_1 s0 s1 s2 e)) 0.
-(* Barlat with the deviatoric projector as both transformations: same value, normal (entries 0..3), second derivative (0..12) *)
-Definition bar8_hosford_stmt : Prop :=
-  forall s0 s1 s2 e : R, e < mises_1 s0 s1 s2 -> 0 < misesQ s0 s1 s2 ->
-    all_upto 1 (fun k => nthR (out (bar8_val_1 s0 s1 s2 e)) k = nthR (out (hos8_val_1 s0 s1 s2 e)) k) /\
-    all_upto 4 (fun k => nthR (out (bar8_nrm_1 s0 s1 s2 e)) k = nthR (out (hos8_nrm_1 s0 s1 s2 e)) k) /\
-    all_upto 13 (fun k => nthR (out (bar8_snd_1 s0 s1 s2 e)) k = nthR (out (hos8_snd_1 s0 s1 s2 e)) k).
 
+(* ---- Barlat: Phi(vp1, vp2, seq) = barS<a>, output layout [Phi; dPhi/du (3); dPhi/dw (3); d2/dudu (00 11 22 01 02 12); d2/dwdw (6); d2/dudw (3x3)] *)
+Definition bar_sidx (i j : nat) : nat := if Nat.eqb i j then i else (Nat.min i j + Nat.max i j + 2)%nat.
+Definition bar_hidx (k l : nat) : nat :=
+  if Nat.ltb k 3 then (if Nat.ltb l 3 then 7 + bar_sidx k l else 19 + 3 * k + (l - 3))%nat
+  else (if Nat.ltb l 3 then 19 + 3 * l + (k - 3) else 13 + bar_sidx (k - 3) (l - 3))%nat.
+Definition barS6_value_stmt : Prop :=
+  forall u0 u1 u2 w0 w1 w2 q : R, 0 < q -> 0 < barT 6 u0 u1 u2 w0 w1 w2 -> nthR (barS6 u0 u1 u2 w0 w1 w2 q) 0 = barPhi 6 (1 / 6) u0 u1 u2 w0 w1 w2.
+Definition barS6_noq_stmt : Prop :=
+  forall u0 u1 u2 w0 w1 w2 q : R, 0 < q -> 0 < barT 6 u0 u1 u2 w0 w1 w2 -> is_derive (fun x => nthR (barS6 u0 u1 u2 w0 w1 w2 x) 0) q 0.
+Definition barS6_grad_stmt : Prop :=
+  forall u0 u1 u2 w0 w1 w2 q : R, 0 < q -> 0 < barT 6 u0 u1 u2 w0 w1 w2 ->
+    all_upto 6 (fun l => is_derive (fun x => nthR ((fun p => barS6 (nthR p 0) (nthR p 1) (nthR p 2) (nthR p 3) (nthR p 4) (nthR p 5) q) (upd [u0; u1; u2; w0; w1; w2] l x)) 0) (nthR [u0; u1; u2; w0; w1; w2] l) (nthR (barS6 u0 u1 u2 w0 w1 w2 q) (1 + l))).
+Definition barS6_hess_stmt : Prop :=
+  forall u0 u1 u2 w0 w1 w2 q : R, 0 < q -> 0 < barT 6 u0 u1 u2 w0 w1 w2 ->
+    all_upto 6 (fun k => all_upto 6 (fun l =>
+      is_derive (fun x => nthR ((fun p => barS6 (nthR p 0) (nthR p 1) (nthR p 2) (nthR p 3) (nthR p 4) (nthR p 5) q) (upd [u0; u1; u2; w0; w1; w2] l x)) (1 + k)) (nthR [u0; u1; u2; w0; w1; w2] l) (nthR (barS6 u0 u1 u2 w0 w1 w2 q) (bar_hidx k l)))).
+Definition barS6_hosford_stmt : Prop :=
+  forall u0 u1 u2 q : R, 0 < q -> 0 < hosT 6 u0 u1 u2 ->
+    nthR (barS6 u0 u1 u2 u0 u1 u2 q) 0 = hosPsi 6 (1 / 6) u0 u1 u2.
